@@ -84,61 +84,77 @@ func (c *Ctx) rulesR4resolver() {
 			}
 		case *ssa.ChangeType:
 			return fromPR(x.X, at, d+1)
+		case *ssa.Parameter:
+			// a hosted helper of TargetStates: the argument at its only call site
+			if pf := x.Parent(); pf != ts && c.hostedBy(pf, ts) {
+				if sites, vals := c.allCallersOf(pf); len(sites) == 1 && len(vals) == 0 {
+					if ci, ok := sites[0].Instr.(ssa.CallInstruction); ok {
+						args := ci.Common().Args
+						for i, p := range pf.Params {
+							if p == x && len(args) == len(pf.Params) {
+								return fromPR(args[i], sites[0].Instr, d+1)
+							}
+						}
+					}
+				}
+			}
 		}
 		return false, "it is " + render(v)
 	}
 	n := 0
-	for _, b := range ts.Blocks {
-		for _, ins := range b.Instrs {
-			call, ok := ins.(*ssa.Call)
-			if !ok || calleeName(&call.Call) != "slicesFilter" || len(call.Call.Args) != 2 {
-				continue
-			}
-			mc, ok := call.Call.Args[1].(*ssa.MakeClosure)
-			if !ok {
-				continue
-			}
-			clo := mc.Fn.(*ssa.Function)
-			sites := c.sitesIn(clo, funcKey(sb))
-			if len(sites) == 0 {
-				continue
-			}
-			n++
-			good, why := fromPR(call.Call.Args[0], call, 0)
-			c.check(good, "C02.reqfirst", fmt.Sprintf("TargetStates: blocked-by scan#%d filters a parseRequire result", n), call.Pos(), "the candidates of the blocked-by scan are not Require-closed: "+why)
-			// the list blockers are taken from: stateBlockedBy's list argument
-			for i, s := range sites {
-				args := s.Common().Args
-				var lst ssa.Value
-				for _, a := range args {
-					if _, ok := a.Type().Underlying().(*types.Slice); ok {
-						lst = a
-						break
-					}
-				}
-				if lst == nil {
+	for _, hf := range c.hostedFns(ts) {
+		for _, b := range hf.Blocks {
+			for _, ins := range b.Instrs {
+				call, ok := ins.(*ssa.Call)
+				if !ok || calleeName(&call.Call) != "slicesFilter" || len(call.Call.Args) != 2 {
 					continue
 				}
-				good, why := false, "it is "+render(lst)
-				if u, ok := lst.(*ssa.UnOp); ok && u.Op == token.MUL {
-					if fv, ok := u.X.(*ssa.FreeVar); ok {
-						for j, fvv := range clo.FreeVars {
-							if fvv == fv {
-								if al, ok := mc.Bindings[j].(*ssa.Alloc); ok {
-									st := reachingStore(al, call)
-									if st == nil {
-										good, why = false, "the assignment of "+al.Comment+" that reaches the scan is not unique"
-									} else {
-										good, why = fromPR(st.Val, st, 0)
+				mc, ok := call.Call.Args[1].(*ssa.MakeClosure)
+				if !ok {
+					continue
+				}
+				clo := mc.Fn.(*ssa.Function)
+				sites := c.sitesIn(clo, funcKey(sb))
+				if len(sites) == 0 {
+					continue
+				}
+				n++
+				good, why := fromPR(call.Call.Args[0], call, 0)
+				c.check(good, "C02.reqfirst", fmt.Sprintf("TargetStates: blocked-by scan#%d filters a parseRequire result", n), call.Pos(), "the candidates of the blocked-by scan are not Require-closed: "+why)
+				// the list blockers are taken from: stateBlockedBy's list argument
+				for i, s := range sites {
+					args := s.Common().Args
+					var lst ssa.Value
+					for _, a := range args {
+						if _, ok := a.Type().Underlying().(*types.Slice); ok {
+							lst = a
+							break
+						}
+					}
+					if lst == nil {
+						continue
+					}
+					good, why := false, "it is "+render(lst)
+					if u, ok := lst.(*ssa.UnOp); ok && u.Op == token.MUL {
+						if fv, ok := u.X.(*ssa.FreeVar); ok {
+							for j, fvv := range clo.FreeVars {
+								if fvv == fv {
+									if al, ok := mc.Bindings[j].(*ssa.Alloc); ok {
+										st := reachingStore(al, call)
+										if st == nil {
+											good, why = false, "the assignment of "+al.Comment+" that reaches the scan is not unique"
+										} else {
+											good, why = fromPR(st.Val, st, 0)
+										}
 									}
 								}
 							}
 						}
+					} else {
+						good, why = fromPR(lst, s, 0)
 					}
-				} else {
-					good, why = fromPR(lst, s, 0)
+					c.check(good, "C02.reqfirst", fmt.Sprintf("TargetStates: blocked-by scan#%d takes blockers from a parseRequire result%s", n, nth(i)), s.Pos(), "the blockers consulted by stateBlockedBy are not Require-closed: "+why)
 				}
-				c.check(good, "C02.reqfirst", fmt.Sprintf("TargetStates: blocked-by scan#%d takes blockers from a parseRequire result%s", n, nth(i)), s.Pos(), "the blockers consulted by stateBlockedBy are not Require-closed: "+why)
 			}
 		}
 	}
@@ -1986,7 +2002,6 @@ func (c *Ctx) rulesR4nilctx() {
 		c.undecided(fmt.Sprintf("C20.nilctx: only %d context invocations found", n))
 	}
 }
-
 
 func nilGuarded(at ssa.Instruction, v ssa.Value, addr bool, sameVar func(x, v ssa.Value, addr bool) bool) bool {
 	for _, gd := range guardsOf(at.Block()) {
